@@ -50,7 +50,18 @@ def run(case, max_steps=150000):
         sim.run_via = {}
         kind = case['target']
         target = w.new_loop() if kind != 'own' else None
+        closed_done = {}
         if kind == 'closed':
+            # futures / tasks of the target that had already finished before it was closed
+            for i, c in enumerate(case['callers']):
+                if c['aw']['kind'] in ('future', 'task'):
+                    f = target.create_future()
+                    if c['aw']['outcome'] == 'raise':
+                        f.set_exception(AwBoom(i))
+                        f.exception()
+                    else:
+                        f.set_result(('result', i))
+                    closed_done[i] = f
             target.close()
         state = {'done': 0, 'lit_running': False}
         n = len(case['callers'])
@@ -116,6 +127,8 @@ def run(case, max_steps=150000):
                         f, resolve = pre[i]
                         tl.call_soon_threadsafe(tl.call_later, spec['dur'], resolve)
                         aw = f
+                elif i in closed_done:
+                    aw = closed_done[i]
                 else:
                     work = make_work(i, spec, lambda: tl)
                     if spec['kind'] == 'coro' or kind == 'closed':
